@@ -36,6 +36,9 @@ def run(ctx, ss):
         ctx.guard(r, f, ss)
     ctx.guard("C08.4", lambda c, s: c03_2(c, s, rule="C08.4"), ss)
     ctx.guard("C08.4", lambda c, s: c05_2(c, s, rule="C08.4"), ss)
+    # C08.8: nothing on the way from the observed entry points is memoised on a parser / tree / path / container (shared.py)
+    from .shared import memo_for
+    ctx.guard("C08.8", memo_for, ss, "C08", "C08.8", "a query")
 
 
 def _queries(ss):
